@@ -63,6 +63,11 @@ CHECKS = {
     category='exploration', design='4/C08',
     text="~320 index maps (chains, cycles, chains into cycles, many-to-one, identities, mixed spaces/spins), 160 permutation sequences, 260 renaming cases (targets colliding with low names, spins, numbered names) and 6 registry histories of 50-500 interleaved requests (~1900 logged events) per quick run.",
     note="Trusted: IR substitution code (20 lines), name_sequence re-implementation of the documented name order."),
+ 'C10': dict(
+    technique="runtime monitor: pointwise value oracle (axis transposition of the term's F_p value array) on every reported symmetry; reconstruction oracle for exploit_perm_sym parts; key recomputation + part-sum oracle for sort.by_* / filter_tensor; LazyTermMap entry oracle",
+    category='exploration', design='4/C10',
+    text="~390 Term/Obj.symmetry calls (all / only_contracted / only_target, denominators, bra-ket symmetries, exponents), ~115 exploit_perm_sym and ~30 LazyTermMap cases on (anti)symmetrised expressions, 110 multi-term expressions through all five sort.by_* functions and filter_tensor (880 calls) per quick run, plus the ADC(2) ph/ph matrix and MP2 density of the repository's tests.",
+    note="Trusted: TM evaluator, numpy swapaxes composition. Terms for the unrestricted symmetry mode keep <= 4 index occurrences per (space, spin): the library's enumeration is factorial."),
 }
 
 NOT_YET = {}
